@@ -469,6 +469,34 @@ func zeroResults(sig *types.Signature) value {
 	return zero(sig.Results())
 }
 
+// stubResults is zeroResults, except that pointers to structs declared in a
+// stubbed (observability) package are non-nil pointers to a zero struct, so
+// that field selections through them do not fault.
+func (i *interpreter) stubResults(sig *types.Signature) value {
+	mk := func(t types.Type) value {
+		if pt, ok := t.Underlying().(*types.Pointer); ok {
+			if nt, ok := pt.Elem().(*types.Named); ok && nt.Obj().Pkg() != nil && i.L.isStubPkg(nt.Obj().Pkg().Path()) {
+				if _, ok := nt.Underlying().(*types.Struct); ok {
+					v := zero(nt)
+					return &v
+				}
+			}
+		}
+		return zero(t)
+	}
+	switch sig.Results().Len() {
+	case 0:
+		return nil
+	case 1:
+		return mk(sig.Results().At(0).Type())
+	}
+	out := make(tuple, sig.Results().Len())
+	for k := range out {
+		out[k] = mk(sig.Results().At(k).Type())
+	}
+	return out
+}
+
 // call interprets a call to a function (function, builtin or closure)
 // fn with arguments args, returning its result.
 func call(i *interpreter, caller *frame, callpos token.Pos, fn value, args []value) value {
@@ -483,7 +511,7 @@ func call(i *interpreter, caller *frame, callpos token.Pos, fn value, args []val
 	case *ssa.Builtin:
 		return i.callBuiltin(caller, callpos, fn, args)
 	case *stubCall:
-		return zeroResults(fn.sig)
+		return i.stubResults(fn.sig)
 	case *nativeClosure:
 		return fn.f(caller, args)
 	}
@@ -550,7 +578,7 @@ func runSSA(i *interpreter, fr *frame, info *fnInfo, fn *ssa.Function, args []va
 		return callSSA(i, caller, callpos, info.intercept, args, nil)
 	}
 	if info.stub {
-		return zeroResults(fn.Signature)
+		return i.stubResults(fn.Signature)
 	}
 	if info.lazyInit && caller != nil && isPkgInit(caller.fn) {
 		return nil // imported package initialisers run on first touch
@@ -572,6 +600,11 @@ func runSSA(i *interpreter, fr *frame, info *fnInfo, fn *ssa.Function, args []va
 
 	if info.idx == nil {
 		info.buildIndex(fn)
+		if isPkgInit(fn) {
+			if bi := i.L.bigInit(fn.Pkg); bi != nil {
+				info.skip = bi.skip
+			}
+		}
 	}
 	fr.info = info
 	fr.regs = make([]value, len(info.idx))
@@ -613,7 +646,12 @@ func runFrame(fr *frame) {
 		}
 		r := recover()
 		switch r := r.(type) {
-		case abortPath, engineFault:
+		case abortPath:
+			panic(r)
+		case engineFault:
+			if !strings.Contains(r.msg, "target stack") {
+				r.msg += "\n  target stack: " + strings.Join(fr.stack(), " <- ")
+			}
 			panic(r)
 		case targetPanic:
 			if r.info == nil {
@@ -650,6 +688,14 @@ func runFrame(fr *frame) {
 	for {
 		nonPhis := executePhis(fr)
 		for _, instr := range nonPhis {
+			if fr.info.skip != nil {
+				if fi, ok := fr.info.skip[instr]; ok {
+					if fi != nil {
+						copy((*fr.get(fi.alloc).(*value)).(array), fi.tmpl)
+					}
+					continue
+				}
+			}
 			i.steps++
 			fr.cur = instr
 			if i.steps > i.maxSteps {
@@ -765,4 +811,82 @@ func shortPos(p token.Position) string {
 		}
 	}
 	return fmt.Sprintf("%s:%d", f, p.Line)
+}
+
+// ---------------------------------------------------------------------
+// Large constant array literals in package initialisers (e.g. kbucket's
+// 65536-entry keyPrefixMap) are built once and copied per path instead of
+// being stored element by element on every path.
+
+type fillInfo struct {
+	alloc *ssa.Alloc
+	tmpl  []value
+}
+
+type bigInitInfo struct {
+	skip map[ssa.Instruction]*fillInfo
+}
+
+func (L *Loaded) bigInit(pkg *ssa.Package) *bigInitInfo {
+	L.bigMu.Lock()
+	defer L.bigMu.Unlock()
+	if bi, ok := L.bigInits[pkg]; ok {
+		return bi
+	}
+	var bi *bigInitInfo
+	if init := pkg.Func("init"); init != nil {
+		for _, b := range init.Blocks {
+			for _, in := range b.Instrs {
+				al, ok := in.(*ssa.Alloc)
+				if !ok {
+					continue
+				}
+				at, ok := mustDeref(al.Type()).Underlying().(*types.Array)
+				if !ok || at.Len() < 512 {
+					continue
+				}
+				if _, isBasic := at.Elem().Underlying().(*types.Basic); !isBasic {
+					continue
+				}
+				tmpl := make([]value, at.Len())
+				z := zero(at.Elem())
+				for k := range tmpl {
+					tmpl[k] = z
+				}
+				var skipped []ssa.Instruction
+				for _, ref := range *al.Referrers() {
+					ia, ok := ref.(*ssa.IndexAddr)
+					if !ok {
+						continue
+					}
+					ci, ok := ia.Index.(*ssa.Const)
+					if !ok || len(*ia.Referrers()) != 1 {
+						continue
+					}
+					st, ok := (*ia.Referrers())[0].(*ssa.Store)
+					if !ok || st.Addr != ia {
+						continue
+					}
+					cv, ok := st.Val.(*ssa.Const)
+					if !ok {
+						continue
+					}
+					tmpl[ci.Int64()] = constValue(cv)
+					skipped = append(skipped, ia, st)
+				}
+				if len(skipped) < 1024 {
+					continue
+				}
+				if bi == nil {
+					bi = &bigInitInfo{skip: map[ssa.Instruction]*fillInfo{}}
+				}
+				for _, sk := range skipped {
+					bi.skip[sk] = nil
+				}
+				bi.skip[skipped[0]] = &fillInfo{alloc: al, tmpl: tmpl}
+			}
+		}
+	}
+	L.bigInits[pkg] = bi
+	return bi
 }
